@@ -1,5 +1,9 @@
 import SR.Proofs.Checker.Eventually
 import SR.Proofs.Checker.Sim
+import SR.Proofs.Checker.Forest
+import SR.Props.C02
+import SR.Checker.Sched
+import SR.Checker.Graph
 /-!
 # C11 — eventually-properties: never a false alarm, exact on forests
 
@@ -29,6 +33,35 @@ theorem C11_no_false_alarm (cs : List Choice) (i : Nat) (pr : Prop' σ) (hpr : P
   have h1 := ((sinv_run (P := P) cs).disc e he).1
   have h2 := (einv_run (P := P) cs).disc e he pr hpr hexp
   exact ⟨e.2, h1, h2.1, h2.2⟩
+
+/-- **Exactness on forests.**  If every reachable state has exactly one in-boundary path from an initial state
+    (`Forest`), the state identity is injective on reachable states, and the run completed (joined; nothing was
+    dropped, or every property has a discovery), then a counterexample for an eventually-property is reported
+    exactly when some maximal in-boundary path never satisfies the condition.  Every schedule, any thread count. -/
+theorem C11_forest_exact (hF : Forest P.M)
+    (hinj : ∀ a b, P.M.Reach a → P.M.Reach b → P.key a = P.key b → a = b)
+    (cs : List Choice) (hc : C02.Completed P (run P cs))
+    (i : Nat) (pr : Prop' σ) (hpr : P.props[i]? = some pr) (hexp : pr.exp = .eventually) :
+    hasDisc (run P cs).disc i = true ↔ ∃ p, MaxPathAvoiding P pr p := by
+  constructor
+  · exact C11_no_false_alarm P cs i pr hpr hexp
+  · rintro ⟨p, hp, hav, t, hl, hterm⟩
+    rcases hc.2 with he | hall
+    · have htr : P.M.Reach t := Sys.reach_last_of_isPath hp hl
+      obtain ⟨u, hu, rfl⟩ := complete_of_quiescent (P := P) Eq hinj (fun _ _ _ h1 h2 => h1.trans h2)
+        (fun a b hab a' ha' => ⟨a', hab ▸ ha', rfl⟩) cs hc.1 he t htr
+      exact (finv_run (P := P) hpr hexp hF cs).done _ hu p hp hl hav hterm
+    · exact (C02.allDiscovered_iff P _).1 hall i (List.getElem?_eq_some_iff.1 hpr).1
+
+/-- the incompleteness off forests that the source documents (FIXME in bfs.rs/dfs.rs) is real: at a join the
+    second path's bits are lost.  `0→{1,2}, 1→3, 2→3`, "eventually (= 1)": the path `[0,2,3]` avoids the condition
+    and is maximal, but BFS reaches 3 first through 1 and reports nothing. -/
+def joinGraph : Graph :=
+  { n := 4, init := [0], adj := [[some 1, some 2], [some 3], [some 3], []], bnd := [true, true, true, true] }
+def joinParams : Params Nat Nat Nat :=
+  { M := joinGraph.toSys, props := [{ exp := .eventually, cond := fun s => s == 1 }],
+    key := id, cfg := {}, finishMatches := fun d => d.length == 1 }
+example : (runSingle joinParams .bfs 200).disc = [] ∧ (runSingle joinParams .bfs 200).early = false := by decide
 
 /-- a maximal in-boundary path for the simulation checker: terminal, or looping forever (a lasso) -/
 def MaxPathAvoidingSim (pr : Prop' σ) (p : List σ) : Prop :=
